@@ -24,7 +24,7 @@ func ValidateSyncCommitteeSubnet(ctx context.Context, subnet uint64, syncCommMes
 
 	// [IGNORE] The message's slot is for the current slot (with a MAXIMUM_GOSSIP_CLOCK_DISPARITY allowance),
 	// i.e. sync_committee_message.slot == current_slot.
-	if err := CheckSlotSpan(scpVal.SlotAfter, syncCommMessage.Slot, 1); err != nil {
+	if err := CheckSlotSpan(scpVal.SlotAfter, syncCommMessage.Slot, 0); err != nil {
 		return nil, GossipValidatorResult{IGNORE, fmt.Errorf("sync comm message not for current slot: %v", err)}
 	}
 
